@@ -235,4 +235,13 @@ example :
       some [((1, 0), true), ((2, 0), true), ((0, 0), false)] := by
   decide
 
+/-- **tie to `main.rs` / `store.rs`** (regenerated from the source on every run): exactly one limiter
+    is created, one `Metrics` instance is built, and every one of the three transports is started
+    with a handle that is a `clone()` of that one limiter - so all transports feed the single
+    actor whose behaviour the theorems above describe.  (`store.rs` spawns one actor per store-kind
+    branch of a `match`, i.e. exactly one at run time.) -/
+theorem C09_tie_single_limiter :
+    Gen.MAIN_CREATE_LIMITER_CALLS = 1 ∧ Gen.MAIN_TRANSPORT_STARTS = 3 ∧
+    Gen.MAIN_HANDLES_CLONED_FROM_LIMITER = 3 ∧ Gen.MAIN_METRICS_BUILDS = 1 ∧ Gen.STORE_SPAWN_CALLS = 3 := by decide
+
 end TcVerif.Actor
